@@ -320,9 +320,10 @@ func tableSequence(o *Out, r *rand.Rand, seqNo, nOps int) {
 		return out
 	}
 	type pending struct {
-		resp  *portalwire.VerifRevalResponse
-		idIdx int
-		newK  int
+		resp     *portalwire.VerifRevalResponse
+		idIdx    int
+		newK     int
+		scripted bool // what the transport was scripted to do with this node's PING (the ground truth of the liveness check)
 	}
 	var pend []pending
 	now := time.Duration(0)
@@ -401,7 +402,10 @@ func tableSequence(o *Out, r *rand.Rand, seqNo, nOps int) {
 					if resp.NewRecord() != nil {
 						nk = newK[idx]
 					}
-					fresh = append(fresh, pending{resp, idx, nk})
+					tr.mu.Lock()
+					scripted := tr.answer[resp.ID()].respond
+					tr.mu.Unlock()
+					fresh = append(fresh, pending{resp, idx, nk, scripted})
 				}
 				// the two requests of one run answer in either order: canonicalise
 				sort.Slice(fresh, func(a, b int) bool { return fresh[a].idIdx < fresh[b].idIdx })
@@ -424,7 +428,8 @@ func tableSequence(o *Out, r *rand.Rand, seqNo, nOps int) {
 				if p.newK >= 0 {
 					nr = "r" + strconv.Itoa(p.newK)
 				}
-				o.Case(fmt.Sprintf("revalresp i%d responded=%d newrec=%s rnd=%d", p.idIdx, b2i(p.resp.DidRespond()), nr, promotedIndex(before, after)), snap)
+				// responded = the PING's scripted outcome (ground truth); reported = what doRevalidate made of it
+				o.Case(fmt.Sprintf("revalresp i%d responded=%d reported=%d newrec=%s rnd=%d", p.idIdx, b2i(p.scripted), b2i(p.resp.DidRespond()), nr, promotedIndex(before, after)), snap)
 			default: // lookup feedback
 				es := entryIDs()
 				var k int
